@@ -170,6 +170,7 @@ def make_doc(rng, knobs=None):
     pos = 0
     entry_keys, string_keys = [], []
     persons = []
+    cycle_partner = None
     last_kind = None
     weights = [("entry", k["p_entry"]), ("string", k["p_string"]), ("preamble", k["p_preamble"]),
                ("xcomment", k["p_xcomment"]), ("icomment", k["p_icomment"])]
@@ -218,6 +219,8 @@ def make_doc(rng, knobs=None):
                         v = "{" + name_list(rng, persons) + "}"
                     elif k.get("names") and fk == "month" and rng.random() < 0.8:
                         v = rng.choice(["jan", "{February}", "3", "{12}", "\"dec\"", "13", "Mar", "{sept}"])
+                    elif k.get("cycles") and string_keys and rng.random() < 0.35:
+                        v = rng.choice(string_keys)             # a field that names one of those @strings
                     else:
                         v = value(rng, k, string_keys)
                     emit("=" + _ws(rng, k, "eq") + v)
@@ -233,6 +236,15 @@ def make_doc(rng, knobs=None):
             string_keys.append(key)
             # chains: a string may name an earlier string; with the cycles knob also itself or any other key
             v = value(rng, k, (list(string_keys) + STRKEYS) * 2 if k.get("cycles") else list(string_keys[:-1]) * 2)
+            if k.get("cycles") and rng.random() < 0.6:
+                v = rng.choice(string_keys + STRKEYS[:4])      # a bare name: alias chains, self-references and cycles between @strings
+            if cycle_partner is not None:
+                key, v = cycle_partner                         # closes a two-string cycle opened by the previous @string
+                string_keys[-1] = key
+                cycle_partner = None
+            elif k.get("cycles") and rng.random() < 0.4:
+                v = "cy%d" % bi                                 # names an @string that does not exist yet ...
+                cycle_partner = ("cy%d" % bi, key)              # ... the next @string will define it as an alias of this one
             emit("@" + rng.choice(["string", "String", "STRING"]) + rng.choice(["", " "]) + "{" + _ws(rng, k, "x") + key
                  + _ws(rng, k, "eq") + "=" + _ws(rng, k, "eq") + v + _ws(rng, k, "x") + "}")
             b.update({"key": key, "value": v})
